@@ -476,6 +476,11 @@ type c13MappedCase struct {
 
 // c13DirectMapped runs one case.  fixedKeys/fixedSig: a replay of a named witness.
 func c13DirectMapped(c *Ctx, r *Result, idx int, seed int64, fixedKeys []string, fixedSig *c13Sig, name string) {
+	c13DirectMappedX(c, r, idx, seed, fixedKeys, fixedSig, name, false)
+}
+
+// shrinking: this is a re-execution with a subset of the keys of a failing case (same signature).
+func c13DirectMappedX(c *Ctx, r *Result, idx int, seed int64, fixedKeys []string, fixedSig *c13Sig, name string, shrinking bool) {
 	rng := rand.New(rand.NewSource(seed))
 	var sig *c13Sig
 	if fixedSig != nil {
@@ -492,8 +497,12 @@ func c13DirectMapped(c *Ctx, r *Result, idx int, seed int64, fixedKeys []string,
 		}
 	}
 	keys, ktags := fixedKeys, []string{"fixed"}
-	if keys == nil {
+	if keys == nil || shrinking {
+		// (when shrinking, the key set is drawn as in the original run to keep the value stream aligned)
 		keys, ktags = c13GenKeySet(rng, outNames, false)
+		if shrinking {
+			keys, ktags = fixedKeys, append(ktags, "shrunk")
+		}
 	}
 	root := filepath.Join(c13Scratch(c), fmt.Sprintf("m%d", idx))
 	ps := filepath.Join(root, "ps")
@@ -533,7 +542,7 @@ func c13DirectMapped(c *Ctx, r *Result, idx int, seed int64, fixedKeys []string,
 		return
 	}
 	params := c13ParamsFromSyntax(&ast.TypeTable, ast.Callables.Table["TOP"].GetOutParams())
-	g := &c13ValGen{rng: rng, root: root, ext: filepath.Join(root, "ext"), tags: map[string]bool{}, budget: 18, plainOnly: fixedKeys != nil}
+	g := &c13ValGen{rng: rng, root: root, ext: filepath.Join(root, "ext"), tags: map[string]bool{}, budget: 18, plainOnly: fixedKeys != nil && !shrinking}
 	os.MkdirAll(g.ext, 0o755)
 	outs := &c13J{K: 'O'}
 	for i, k := range keys {
@@ -620,10 +629,18 @@ func c13DirectMapped(c *Ctx, r *Result, idx int, seed int64, fixedKeys []string,
 		r.violate(Violation{Kind: "property", Key: key, What: what, Input: cas, Impl: d})
 	}
 	c13WalkRecords("map", params, mon, outs, post, ps)
-	c13MappedOwnLocation(params, mon, outs, post, ps)
-	if len(mon.fails) > 0 {
-		for i := range mon.fails {
-			mon.fails[i] = strip(mon.fails[i])
+	own := newC13Mon(ps)
+	own.pre, own.kind, own.occ = mon.pre, mon.kind, mon.occ
+	c13MappedOwnLocation(params, own, outs, post, ps)
+	if len(mon.fails)+len(own.fails) > 0 {
+		key := c13MappedKey(class)
+		if class == "separable" && len(own.fails) > 0 {
+			// the model-free reading fails: a fork's file was not moved below outs/ or shares its location
+			key = "C13:mapped-fork-not-at-own-location"
+		}
+		fails := append(append([]string{}, own.fails...), mon.fails...)
+		for i := range fails {
+			fails[i] = strip(fails[i])
 		}
 		what := "outputs of a top-level call mapped over a typed map not materialised faithfully"
 		if perr != nil {
@@ -631,9 +648,41 @@ func c13DirectMapped(c *Ctx, r *Result, idx int, seed int64, fixedKeys []string,
 		} else {
 			what += " (no error was reported)"
 		}
-		r.violate(Violation{Kind: "property", Key: c13MappedKey(class), What: what + ": " + strings.Join(mon.fails, "; "),
+		v := Violation{Kind: "property", Key: key, What: what + ": " + strings.Join(fails, "; "),
 			Input: cas, Impl: strip(string(compactJSON(raw))),
-			Expect: "every non-null file leaf of every fork key readable under outs/<key>/<derived name>, recorded at a location of its own below outs/ with the content produced for that key"})
+			Expect: "every non-null file leaf of every fork key readable under outs/<key>/<derived name>, recorded at a location of its own below outs/ with the content produced for that key"}
+		if class == "separable" && !shrinking && fixedKeys == nil && len(keys) > 1 {
+			// shrink: the same signature with one key or one pair of keys
+			var subsets [][]string
+			for _, k := range keys {
+				subsets = append(subsets, []string{k})
+			}
+			for i := range keys {
+				for j := i + 1; j < len(keys); j++ {
+					subsets = append(subsets, []string{keys[i], keys[j]})
+				}
+			}
+			for j, sub := range subsets {
+				if _, cl := c13KeyDirsGo(outsRoot, sub); cl != "separable" {
+					continue
+				}
+				tmp := &Result{}
+				c13DirectMappedX(c, tmp, 2000000+idx*100+j, seed, sub, sig, fmt.Sprintf("mapped-%d-shrunk", idx), true)
+				shrunk := false
+				for _, tv := range tmp.Violations {
+					if tv.Key == key {
+						v = tv
+						shrunk = true
+						r.hist("mapped:shrunk-to-" + fmt.Sprint(len(sub)) + "-keys")
+						break
+					}
+				}
+				if shrunk {
+					break
+				}
+			}
+		}
+		r.violate(v)
 	}
 	if len(mon.alias) > 0 {
 		r.hist("mapped:alias-value-points-at-other-output")
